@@ -253,7 +253,8 @@ pub fn campaign(seed: u64, count: u64, max_ops: u64, cfg: &PhysCfg, ops_path: &s
                         format!("put {} {}", enc(&p), hex(&pattern(n, h * 977 + done)))
                     }
                 } else if w < 50 && !free_streams.is_empty() {
-                    format!("rm {}", enc(&**r.pick(&free_streams)))
+                    // now and then the wrong kind of object: the root or a storage (refused; must not touch a sector)
+                    if r.chance(1, 12) { format!("rm {}", enc(*r.pick(&["/", "/s1"]))) } else { format!("rm {}", enc(&**r.pick(&free_streams))) }
                 } else if w < 54 {
                     let p = format!("/{}", r.pick(&["s1", "s2"]));
                     match r.below(4) {
